@@ -86,6 +86,9 @@ func (e *SExpr) String() string {
 	return "?"
 }
 
+// watchRe: callee expressions whose calls a contract refers to through ncalls / callarg / callret
+var watchRe = regexp.MustCompile(`(ncalls|callarg|callret)\("([^"]+)"`)
+
 var roleAtRe = regexp.MustCompile(`\$[A-Za-z]+@[0-9]+(\.[0-9]+)*`)
 
 type tok struct {
@@ -465,6 +468,7 @@ type FuncSpec struct {
 	Propagates      bool
 	DeferredHandler bool
 	WorkerEnsures   []*SExpr
+	WatchCalls      map[string]bool // callee expressions whose calls are recorded (ghost call records)
 	Local           map[*SExpr]bool // postconditions not exported to other callers (clause `proves`)
 	ChanNonNil      bool
 	SiteKFs         map[string][]KFAssume
@@ -589,6 +593,12 @@ func parseContractFile(path, pkgPath string) (*ContractFile, error) {
 			}
 			if err := parseClause(cur, word, rest); err != nil {
 				return nil, fail(err)
+			}
+			for _, m := range watchRe.FindAllStringSubmatch(rest, -1) {
+				if cur.WatchCalls == nil {
+					cur.WatchCalls = map[string]bool{}
+				}
+				cur.WatchCalls[m[2]] = true
 			}
 		}
 	}
